@@ -319,6 +319,9 @@ func genMetric(r *rand.Rand, mode string) metricIn {
 		}
 	case "vecagg":
 		in.Recs, in.Expr, in.Evals = genVecAggCase(r)
+		if r.Intn(6) == 0 {
+			in = genTopkWide(r)
+		}
 	case "binop":
 		in.Recs, in.Expr, in.Evals = genBinOpCase(r)
 	case "series":
@@ -482,6 +485,33 @@ func genVecAggCase(r *rand.Rand) ([]MemRec, mexprIn, []evalIn) {
 	return recs, *e, wideEvals
 }
 
+// genTopkWide: one group of 6-9 series with pairwise distinct values and k of 3-6, so that the bounded heap of
+// topk / bottomk is full and replaces its root several times; the order in which the series arrive is Go's map
+// order, re-randomised on every one of the repeated evaluations.
+func genTopkWide(r *rand.Rand) metricIn {
+	in := metricIn{Reps: 6}
+	m := 6 + r.Intn(4)
+	vals := r.Perm(m)
+	id := 0
+	for sidx := 0; sidx < m; sidx++ {
+		for j := 0; j <= vals[sidx]; j++ {
+			id++
+			in.Recs = append(in.Recs, MemRec{ID: id, TS: []int{mBase + 1 + id%30, 0}, Line: B("m"), Doc: [][2][]int{},
+				Attrs: [][2][]int{{B("app"), B(fmt.Sprintf("s%d", sidx+1))}}})
+		}
+	}
+	sort.SliceStable(in.Recs, func(a, b int) bool { return in.Recs[a].TS[0] < in.Recs[b].TS[0] })
+	for i := range in.Recs {
+		in.Recs[i].ID = i + 1
+	}
+	e := &mexprIn{T: "range", ID: 1, Op: "count_over_time", Sel: []matcherIn{}, Param: Ints{0, 1}, Grp: noGrp(), V: Ints{0, 1},
+		Unwrap: unwrapIn{Label: Ints{}}, Range: 100, Stages: []stageIn{{T: "drop", Labels: IntsList{B("msg")}}}}
+	in.Expr = mexprIn{T: "vecagg", Op: []string{"topk", "bottomk"}[r.Intn(2)], K: 3 + r.Intn(4), Grp: noGrp(), E: e,
+		Sel: []matcherIn{}, Stages: []stageIn{}, Param: Ints{0, 1}, V: Ints{0, 1}, Unwrap: unwrapIn{Label: Ints{}}}
+	in.Evals = wideEvals
+	return in
+}
+
 func vecLeaf(id int, r *rand.Rand, app string) *mexprIn {
 	e := &mexprIn{T: "range", ID: id, Op: []string{"count_over_time", "bytes_over_time"}[r.Intn(2)], Param: Ints{0, 1}, Grp: noGrp(), V: Ints{0, 1},
 		Unwrap: unwrapIn{Label: Ints{}}, Range: 100, Stages: []stageIn{{T: "drop", Labels: IntsList{B("msg"), B("v")}}}}
@@ -512,7 +542,17 @@ func genBinOpCase(r *rand.Rand) ([]MemRec, mexprIn, []evalIn) {
 	apps := []string{"a", "b", "c", ""}
 	left, right := vecLeaf(1, r, pick(r, apps)), vecLeaf(2, r, pick(r, apps))
 	var e *mexprIn
-	switch r.Intn(5) {
+	switch r.Intn(6) {
+	case 5: // comparisons over NaN samples (x / 0, x % 0): only != holds, on either side and between two NaNs
+		nan := func(x *mexprIn) *mexprIn { return bin(pick(r, []string{"div", "mod"}), x, litExpr([]int{0, 1}), false) }
+		switch r.Intn(3) {
+		case 0:
+			e = bin(pick(r, cmpo), nan(left), litExpr(scalars[r.Intn(len(scalars))]), r.Intn(2) == 0)
+		case 1:
+			e = bin(pick(r, cmpo), litExpr(scalars[r.Intn(len(scalars))]), nan(left), r.Intn(2) == 0)
+		default:
+			e = bin(pick(r, cmpo), nan(left), nan(right), r.Intn(2) == 0)
+		}
 	case 0: // vector o vector, arithmetic
 		op := pick(r, arith)
 		if op == "pow" {
